@@ -182,6 +182,17 @@ def kw_apart(R, f, cfg, calls, k, prefix):
             recv_, attr_ = q.attr_call(c_)
             if attr_ in ("append", "add") and isinstance(recv_, ast.Name) and tests and c_.args and q.src(c_.args[0]) == q.src(lp.target):
                 extras.add(recv_.id)
+    # the surplus keywords enter the key in an order that does not depend on how the caller wrote them: E is sorted
+    for e_name in sorted(extras):
+        defs = [st for st in q.scope_nodes(f.node) if isinstance(st, ast.Assign) and len(st.targets) == 1 and isinstance(st.targets[0], ast.Name) and st.targets[0].id == e_name]
+        is_sorted = any(isinstance(st.value, ast.Call) and q.call_name(st.value) == "sorted" for st in defs) or \
+            any(q.attr_call(c_)[1] == "sort" and isinstance(q.attr_call(c_)[0], ast.Name) and q.attr_call(c_)[0].id == e_name for c_ in q.calls(f.node))
+        # (or what is built from it is sorted where the pairs are made)
+        is_sorted = is_sorted or any(isinstance(c_, ast.Call) and q.call_name(c_) == "sorted" and e_name in q.names_loaded(c_) for c_ in q.calls(f.node))
+        R.check(is_sorted, prefix + ".KW-APART", "%s:sorted:%s" % (f.qualname, e_name), R.site(f, defs[0] if defs else None),
+                "the surplus keyword names `%s` are sorted before they enter the key" % e_name,
+                "the surplus keywords enter the key in the order the caller wrote them (`%s` is not sorted): f(1, a=1, b=2) and f(1, b=2, a=1) get different keys - "
+                "the second call misses the cache / is not deduplicated" % e_name)
     # the mapping is narrowed to the parameters: k = {... for ... in k if ... not in E}
     narrow = []
     for n in cfg.nodes:
@@ -190,6 +201,19 @@ def kw_apart(R, f, cfg, calls, k, prefix):
             if any(isinstance(o, ast.NotIn) and q.src(cmp_.comparators[0]) in extras
                    for g in st.value.generators for i in g.ifs for cmp_ in ast.walk(i) if isinstance(cmp_, ast.Compare) for o in cmp_.ops):
                 narrow.append(n)
+
+    # (... or through a dict filled by a loop over the mapping under the same filter, then bound to the mapping's name)
+    filtered = set()
+    for lp in [x for x in ast.walk(f.node) if isinstance(x, ast.For) and q.src(x.iter) in (k, k + ".keys()", k + ".items()")]:
+        for iff in [x for x in ast.walk(lp) if isinstance(x, ast.If)]:
+            if any(isinstance(o, ast.NotIn) and q.src(cmp_.comparators[0]) in extras for cmp_ in ast.walk(iff.test) if isinstance(cmp_, ast.Compare) for o in cmp_.ops):
+                for st in iff.body:
+                    if isinstance(st, ast.Assign) and isinstance(st.targets[0], ast.Subscript) and isinstance(st.targets[0].value, ast.Name):
+                        filtered.add(st.targets[0].value.id)
+    for n in cfg.nodes:
+        st = n.ast if n.kind == "stmt" else None
+        if isinstance(st, ast.Assign) and len(st.targets) == 1 and q.src(st.targets[0]) == k and isinstance(st.value, ast.Name) and st.value.id in filtered:
+            narrow.append(n)
 
     def safe_edge(e):
         nd = cfg.nodes[e.src]
